@@ -184,6 +184,9 @@ def mode1(ctx):
     m1.holds("inf, 2 steps", "C04_quick.cfg", sub_cfg("inf", "InfKinds"))
     m1.holds("inf1, 2 steps", "C04_quick.cfg", sub_cfg("inf1", "InfKinds"))
     m1.holds("nocyc (no cyclic offers), 2 steps", "C04_quick.cfg", sub_cfg("nocyc", "InfKinds"))
+    two = {"Match <- C04_Match": "Match <- C04_Match2"}
+    m1.holds("two (two overlapping auto-subscriptions, one withdrawn), crash/stop/unfind, 2 steps", "C04_quick.cfg",
+             sub_cfg("two", "TwoKinds") | two)
     if not ctx.quick:
         m1.holds("fin, all disturbances, 2 steps, free interleaving of the two loops", "C04_quick.cfg",
                  sub_cfg("fin", "AllKinds", sched="any"), timeout=3000)
@@ -194,6 +197,8 @@ def mode1(ctx):
                  sub_cfg("fin", "AllKinds", faults=3, sched="any"), timeout=3000)
         m1.holds("fin, all disturbances, 4 steps", "C04_quick.cfg", sub_cfg("fin", "AllKinds", faults=4, horizon=46), timeout=3000)
         m1.holds("nocyc, 4 steps, free interleaving", "C04_quick.cfg", sub_cfg("nocyc", "InfKinds", faults=4, sched="any"), timeout=3000)
+        m1.holds("two, all disturbances + unfind, 3 steps", "C04_quick.cfg", sub_cfg("two", "TwoAllKinds", faults=3, horizon=44) | two, timeout=3000)
+        m1.holds("two, crash/stop/unfind, 2 steps, free interleaving", "C04_quick.cfg", sub_cfg("two", "TwoKinds", sched="any") | two, timeout=3000)
         for name in ("inf", "inf1"):
             m1.holds(name + ", 4 steps", "C04_quick.cfg", sub_cfg(name, "InfKinds", faults=4), timeout=3000)
             m1.holds(name + ", 2 steps, free interleaving", "C04_quick.cfg", sub_cfg(name, "InfKinds", sched="any"), timeout=3000)
@@ -201,6 +206,7 @@ def mode1(ctx):
     m1.caught("Sw_StaleTimerOnRefresh", "C04_quick.cfg")
     m1.caught("Sw_SubStopForgetsList", "C04_quick.cfg")
     m1.caught("Sw_QueueLatestWins", "C04_quick.cfg", sub_cfg("inf1", "InfKinds"))
+    m1.caught("Sw_UnsubRemovesAll", "C04_quick.cfg", sub_cfg("two", "TwoKinds") | {"Match <- C04_Match": "Match <- C04_Match2"})
     return m1
 
 
@@ -251,11 +257,14 @@ def check(ctx):
     from .. import conform
     acc = total = 0
     worst = None
-    for name in [c for c in CONFIGS if c != "two"]:      # (the second auto-subscription is not part of SD2.tla)
-        sel = [t for t in traces if t["config"] == name][: ctx.pick(30, 250)]
+    for name in CONFIGS:
+        sel = [t for t in traces if t["config"] == name][: ctx.pick(16 if name == "two" else 30, 250)]
         for t in sel:
             t["ticks"] = conform.ticks_of([e for e in t["ev"] if e.get("k") != "adv"])
-        res, _ = conform.run2({"Match": "C04_Match", "Cfg": "C04_" + name, "Sw": "AllOff"}, sel)
+        consts = {"Match": "C04_Match", "Cfg": "C04_" + name, "Sw": "AllOff"}
+        if name == "two":       # the second auto-subscription and its withdrawal ("unfind")
+            consts.update(Match="C04_Match2", Kinds="TwoAllKinds")
+        res, _ = conform.run2(consts, sel)
         for t, r in zip(sel, res):
             total += 1
             acc += bool(r[0])
